@@ -580,4 +580,3 @@ func (r *scenRun) addRelay(name string) (*node, error) {
 	n.pool, n.stopPool, n.poolAddr = pool, stop, poolListenAddr(pool)
 	return n, nil
 }
-
